@@ -575,3 +575,37 @@ pub fn write_ops<T: Spec>(ops: &[WOp]) -> Result<Vec<u8>, (usize, WErr)> {
     }
     w.finish().map_err(|e| (ops.len(), e))
 }
+
+// ---------------------------------------------------------------------------------------------
+// memory safety of the harness itself: a declared size between 64 MiB and the configured limit
+// makes the iterator legitimately allocate that much (documented); 16 workers cannot afford it.
+
+pub const SAFE_ALLOC: u64 = 64 << 20;
+
+/// largest vint value readable at ANY offset of the input that does not exceed `limit`
+/// (every size field the iterator can ever parse starts at some input offset, so this is a sound bound)
+pub fn max_declarable_size(b: &[u8], limit: u64) -> u64 {
+    let mut m = 0u64;
+    for i in 0..b.len() {
+        if let crate::refmodel::VintRead::Ok { value, len } = crate::refmodel::ref_read_vint(&b[i..]) {
+            if value != (1u64 << (7 * len)) - 1 && value <= limit && value > m {
+                m = value;
+            }
+        }
+    }
+    m
+}
+
+/// keep the wanted limit only if no header in the input can make the iterator allocate more than SAFE_ALLOC under it
+pub fn safe_max_size(b: &[u8], wanted: MaxSize) -> (MaxSize, bool) {
+    let limit = match &wanted {
+        MaxSize::Untouched => 4_000_000_000u64,
+        MaxSize::Set(None) => u64::MAX,
+        MaxSize::Set(Some(m)) => *m as u64,
+    };
+    if limit <= SAFE_ALLOC || max_declarable_size(b, limit) <= SAFE_ALLOC {
+        (wanted, false)
+    } else {
+        (MaxSize::Set(Some(1 << 20)), true)
+    }
+}
